@@ -31,7 +31,7 @@ def multi_token(b):
     return False
 
 
-def chars_jobs(ctx, invariants, ops, nontrivial, pairs_quick=4):
+def chars_jobs(ctx, invariants, ops, nontrivial, pairs_quick=4, shorter=0):
     """G_chars for a choice of delimiter pairs; quick rotates the pool by seed."""
     pool = PAIRS
     if ctx.quick:
@@ -55,7 +55,7 @@ def chars_jobs(ctx, invariants, ops, nontrivial, pairs_quick=4):
             if len(al) >= 8 or (ctx.quick and (len(chosen) < 2 or (ds, de) != chosen[1])):
                 n -= 1
         ctx.job("chars[%s|%s]" % (ds, de),
-                gens=[{"base": "GenChars", "consts": {"Alphabet": Chars("".join(al)), "N": n}}],
+                gens=[{"base": "GenChars", "consts": {"Alphabet": Chars("".join(al)), "N": n - shorter}}],
                 invariants=invariants, ops=ops, cfg={"ds": ds, "de": de}, nontrivial=nontrivial)
 
 
@@ -144,7 +144,7 @@ def junk_jobs(ctx, invariants, ops, nontrivial, count=None, maxlen=None):
 def check_C01(ctx):
     ops = [{"op": "clean"}, {"op": "list"}, {"op": "list_json"}, {"op": "list_all"}, {"op": "list_all_json"}]
     q = ctx.quick
-    chars_jobs(ctx, ["Inv_C01"], ops, None, pairs_quick=1 if q else 4)
+    chars_jobs(ctx, ["Inv_C01"], ops, None, pairs_quick=1 if q else 4, shorter=0 if q else 1)   # five operations per string
     # tags built from atoms: blank bodies, stray delimiters, elements with every kind of attribute, multi-byte ends
     for (ds, de) in ([("<", ">"), ("《", "》")] if q else [("<", ">"), ("《", "》"), ("<!-- <", "> -->"), ("%%", "%%"), (" <", " >")]):
         atoms = [ds, de, ds + "rm name='a'" + de, ds + "rm name='a' unwrap-block" + de, ds + "/rm" + de,
